@@ -13,6 +13,8 @@ open AsyncFix.Session AsyncFix.Generated AsyncFix.Generated.ConnEnum
 variable {g : List Effect → Bool} [EffGuard g] {om : Option Msg}
 
 section walk
+-- the guard is `excFree` from here on: `disconnect` swallows the exception of an unsendable Logout
+local notation "g" => excFree
 attribute [local irreducible] disconnect stateSet processLogon processSeqreset checkSeqnumGaps processLogout
   processResend processTestRequest processHeartbeat sendMsg M.bind' M.pure' M.get M.modify M.emit M.throw
   M.liftE M.assert M.int swallow M.tryCatch
